@@ -125,16 +125,16 @@ func (t *thread) idString() string {
 
 // Sched is one managed execution.
 type Sched struct {
-	ch      Chooser
-	threads []*thread
-	cur     *thread
-	main    *thread
-	Points  int
-	Horizon int
-	Trace   []string // operation log (thread id: op), kept when KeepTrace is set
-	KeepTrace bool
-	aborted string
-	Deadlock []string // pending operation of every unfinished thread at deadlock
+	ch          Chooser
+	threads     []*thread
+	cur         *thread
+	main        *thread
+	Points      int
+	Horizon     int
+	Trace       []string // operation log (thread id: op), kept when KeepTrace is set
+	KeepTrace   bool
+	aborted     string
+	Deadlock    []string // pending operation of every unfinished thread at deadlock
 	Preemptions int
 	world       Obj // all Yield points are ordered through this object
 	// OnPoint, if set, is called at every scheduling point (monitors that must hold at every state).
